@@ -203,7 +203,9 @@ def run_group(g, scratch, tree):
             final = i_gb
             g_unw = g.unwind
     cb = ["cbmc", final, "--no-standard-checks"] + g.checks + ["--unwinding-assertions",
-          "--max-field-sensitivity-array-size", "1024", "--object-bits", "12", "--json-ui"]
+          "--max-field-sensitivity-array-size", "1024", "--json-ui"]
+    if "--object-bits" not in g.extra_cbmc:
+        cb += ["--object-bits", "12"]
     if g_unw:
         cb += ["--unwind", str(g_unw)]
     if g.unwindset:
